@@ -33,11 +33,11 @@ CLAIMED = {
         note="Trusted: table walker, harness. Hash-iteration order is varied, not controlled. Insensitive by design to purely functional bugs (wrong on both sides).",
     ),
     "C14": dict(
-        engine="libsim",
+        engine="libsim+clisim",
         technique="deterministic simulation with restart injection: 'restart' (JSON export/import+repair, or node-list rebuild) is one more generated operation at any point of a seeded call history, only durable state survives; oracle = never-restarted twin + element-wise identity of nodes/roots across the restart",
         text="Crash-consistency pattern applied to the two persistence paths: restarts are drawn at arbitrary points of seeded call histories, any number of times; volatile (#[serde(skip)]) tables are lost. Verdicts: nodes and roots identical immediately after each restart; every later answer equals the never-restarted twin's; no panic after recovery. Exploration-level evidence.",
         design_ref="DESIGN.md 5.4",
-        note="Trusted: harness, table walker. The CLI export-file part of the property (never overwrite, acknowledged export is durable) is covered by the clisim part when present in the evidence (parts).",
+        note="Trusted: harness, table walker, strace's syscall tampering. CLI part (clisim): the real adf-bdd binary under strace fault injection, path-filtered to the export file: k-th write fails (ENOSPC/EIO/EINTR) or the process is killed at it, statx/openat fail; verdicts: an existing export target is never modified, an export that exits 0 imports to the same answers, fault-free round trip prints the same output.",
     ),
     "C06": dict(
         engine="libsim",
@@ -109,6 +109,8 @@ def main():
         "engines": [
             {"name": "srvsim", "path": "/verif/sim/srvsim", "serves_properties": sorted(p for p, c in CLAIMED.items() if "srvsim" in c["engine"]),
              "kind_free_text": "deterministic simulation of the web service: real handlers/middleware/solver in-process on a paused current-thread runtime, gated in-memory MongoDB stub, parked blocking closures, seeded step scheduler with fault injection, shrinking + replay files"},
+            {"name": "clisim", "path": "/verif/sim/clisim", "serves_properties": ["C14"],
+             "kind_free_text": "the real adf-bdd binary in a private directory under strace syscall fault injection at exact, replayable positions (single-threaded process => deterministic fault points); seeded case generation, fault-position enumeration in the thorough tier"},
             {"name": "libsim", "path": "/verif/sim/libsim", "serves_properties": sorted(p for p, c in CLAIMED.items() if "libsim" in c["engine"]),
              "kind_free_text": "deterministic simulation of the library: baton-scheduled real threads over a simulated crossbeam-channel, seeded decision source, restart/peer-drop faults, shrinking + replay files"},
         ],
